@@ -17,6 +17,8 @@
      go                                  get_outpoints()
      fk                                  keep a second object: other = tx.clone()      sw   swap tx and the other object
      new.<version>.<locktime> / def      continue with Transaction::new(..) / Transaction::default()
+     pb.<bytes> / ph.<bytes>             continue with Transaction::from_bytes(bytes) / from_hex(hex of bytes) (any accepted encoding,
+                                         e.g. non-minimal compact sizes)
      fb / fh / fj / fc                   continue with from_bytes(to_bytes()) / from_hex(to_hex()) / from_json_string(to_json_string())
                                          / from_compact_bytes(to_compact_bytes()) of the current object (cache must be empty again;
                                          contents unchanged: properties C01 / C18; the histories contain no coinbase input)
@@ -46,7 +48,7 @@ Inductive xop :=
 | XSig (f idx : N) (sub : list bit) (v : N)
 | XSign (f idx : N) (sub : list bit) (v : N)
 | XIns (l : list txin) | XOuts (l : list txout) | XHashIn (f : N) | XGetOutpoints
-| XFork | XSwap | XNew (v lt : N) | XDefault | XReparse (kind : N).
+| XFork | XSwap | XNew (v lt : N) | XDefault | XReparse (kind : N) | XParse (b : bytes).
 
 Definition parse_in (txid vo scr sq : string) : option txin :=
   match expand txid, N_of_dec vo, expand scr, N_of_dec sq with
@@ -95,6 +97,8 @@ Definition parse_op (s : string) : option xop :=
   | ["fh"] => Some (XReparse 1)
   | ["fj"] => Some (XReparse 2)
   | ["fc"] => Some (XReparse 3)
+  | ["pb"; d] => option_map XParse (expand d)
+  | ["ph"; d] => option_map XParse (expand d)
   | ["ai"; a; b; c; d] => option_map (XIn 0 0) (parse_in a b c d)
   | ["pi"; a; b; c; d] => option_map (XIn 1 0) (parse_in a b c d)
   | ["ii"; k; a; b; c; d] => match N_of_dec k with Some n => option_map (XIn 2 n) (parse_in a b c d) | None => None end
@@ -144,7 +148,7 @@ Definition to_op (s : state) (x : xop) : op :=
   | XOuts l => AddOutputs l
   | XHashIn f => HashInputsOp f
   | XGetOutpoints => GetOutpointsOp
-  | XFork | XSwap | XNew _ _ | XDefault | XReparse _ => CloneOp     (* handled by `special` below *)
+  | XFork | XSwap | XNew _ _ | XDefault | XReparse _ | XParse _ => CloneOp     (* handled by `special` below *)
   end.
 
 (* steps that replace the object instead of calling a method on it: every one of them yields a value whose cache is
@@ -155,6 +159,8 @@ Definition special (x : xop) (s : state) (other : option state) : option (outcom
   | XSwap => Some (Ok (match other with Some o => (o, Some s) | None => (s, None) end))
   | XNew v lt => Some (Ok (fresh (tx_new v lt), other))
   | XDefault => Some (Ok (fresh (tx_new 2 0), other))
+  | XParse b =>
+      Some (match tx_from_bytes b with Ok t' => Ok (fresh t', other) | Err => Err | Panic => Panic end)
   | XReparse k =>
       if (k <? 2)%N then
         Some (match tx_from_bytes (tx_bytes (st_tx s)) with
